@@ -1,5 +1,8 @@
 """C12 — instancing: a successful instance is a static font (no variation tables), written by
 the single sfnt producer; bounded recursion of the bounding-box pass."""
+import re
+from fractions import Fraction
+
 import guards
 import recursion
 import sym
@@ -485,6 +488,59 @@ def r12_m(run, fx):
         run.fail(rule, "mvar:missing", "process_mvar has no arm for the value tags %s" % missing, "%s:%s" % (b.file, b.line))
 
 
+# ---- R12-TENT: the per-axis region scalar ----------------------------------------------------------------------------------------
+def _tent_spec(instance, start, peak, end):
+    """OpenType Font Variations overview, "Algorithm for interpolation of instance values", per-axis scalar of a well-formed region"""
+    if peak == 0:
+        return Fraction(1)
+    if instance < start or instance > end:
+        return Fraction(0)
+    if instance == peak:
+        return Fraction(1)
+    if instance < peak:
+        return (instance - start) / (peak - start)
+    return (end - instance) / (end - peak)
+
+
+def _tent_valid(instance, start, peak, end):
+    # the regions the specification calls well formed: start <= peak <= end, and not straddling zero with a non-zero peak
+    return start <= peak <= end and not (start < 0 and end > 0 and peak != 0)
+
+
+def r12_tent(run, fx, floors=True):
+    import fnread
+    rule = "R12-TENT"
+    run.rule(rule, "per-axis scalar of a variation region (item variation stores, gvar/cvar tuples, CFF2 blend): the function calculate_scalar, read "
+                   "as a decision list over (instance, start, peak, end) - every path's comparisons and its result formula, evaluated in exact "
+                   "rational arithmetic - equals the specification's tent function for every assignment of a grid of nine values per parameter "
+                   "(-1 .. 1 in quarters; all orderings and ties of the four parameters, and zero) restricted to well-formed regions: 1 when peak is "
+                   "0, 0 outside start..=end, 1 at the peak, (instance - start) / (peak - start) below it, (end - instance) / (end - peak) above it")
+    grid = [Fraction(k, 4) for k in range(-4, 5)]
+    n = 0
+    for b in fx.bodies:
+        if b.kind == "Closure" or not re.search(r"variable_fonts::calculate_scalar\w*$", b.path):
+            continue
+        n += 1
+        params = [b.local_name(i) for i in range(1, b.arg_count + 1)]
+        if sorted(p or "" for p in params) != ["end", "instance", "peak", "start"]:
+            run.fail(rule, "tent-params:%s" % b.path.split("::")[-1], "%s takes %s; the rule reads it as a function of instance, start, peak and end" % (b.path, params), "%s:%s" % (b.file, b.line))
+            continue
+        try:
+            cnt, bad = fnread.compare(b, params, grid, _tent_spec, _tent_valid)
+        except fnread.Undecided as e:
+            run.fail(rule, "tent-shape:%s" % b.path.split("::")[-1], "%s is no longer a decision list over its four parameters that this rule can read (%s): the region scalar is "
+                     "not decided" % (b.path, e), "%s:%s" % (b.file, b.line))
+            continue
+        if bad:
+            a, got, want = bad[0]
+            run.fail(rule, "tent:%s" % b.path.split("::")[-1], "%s differs from the specification's region scalar, e.g. for instance=%s start=%s peak=%s end=%s it yields %s, the specification %s "
+                     "(%d of %d well-formed assignments compared differ at least here)" % (b.path, a["instance"], a["start"], a["peak"], a["end"], got, want, len(bad), cnt), "%s:%s" % (b.file, b.line))
+        else:
+            run.ok(rule, "%s equals the specification's tent function on %d well-formed assignments" % (b.path, cnt))
+    if floors:
+        run.floor(rule, "region scalar functions", n, 1)
+
+
 def check(run, fx, tier, floors=True):
     import ignored
     ignored.run_for(run, fx, 'C12', floors)
@@ -500,6 +556,7 @@ def check(run, fx, tier, floors=True):
         r12_m(run, fx)
     r12_v(run, fx)
     r12_d(run, fx)
+    r12_tent(run, fx, floors)
     r12_f(run, fx, floors)
     if floors or any("TupleVariationHeader" in b.path for b in fx.bodies):
         r12_xy(run, fx)
